@@ -102,6 +102,7 @@ type world struct {
 	cancelAt401 map[int]context.CancelFunc // jobs whose context is cancelled the moment the registry challenges them
 	ptable      []string        // parse results of headers outside Model/Challenge.v (for the model's parse_with)
 	ptableSeen  map[string]bool
+	redirects   [][2]string // redirect follow-ups seen: model line, observation
 	noScope  bool           // a Bearer challenge without scope parameter was sent during this call
 	perReq   map[string]int // registry sends per X-Verif-Req (concurrent cases)
 
@@ -373,6 +374,38 @@ func (w *world) checkChallenge(hdr string, ps []chParam) {
 	}
 }
 
+// redirectCase: what net/http did with the Authorization header and the body of the
+// redirected request, against Model/Redirect.v.  Judged only when the original
+// request had the header resp. a body.
+func (w *world) redirectCase(req *http.Request, body []byte) {
+	orig := req.Response.Request
+	if orig == nil {
+		return
+	}
+	hadAuth := orig.Header.Get("Authorization") != ""
+	hadBody := orig.Method == http.MethodPost
+	if !hadAuth && !hadBody {
+		return
+	}
+	authObs, bodyObs := "AUTH-STRIPPED", "BODY-DROPPED"
+	if req.Header.Get("Authorization") != "" {
+		authObs = "AUTH-KEPT"
+	}
+	if len(body) > 0 && req.Method == orig.Method {
+		bodyObs = "BODY-KEPT"
+	}
+	line := fmt.Sprintf("RD %s %s %d", common.Hex(orig.URL.Host), common.Hex(req.URL.Host), req.Response.StatusCode)
+	model := authObs + " " + bodyObs
+	// compare only what was observable
+	if !hadAuth {
+		line += " noauth"
+	}
+	if !hadBody {
+		line += " nobody"
+	}
+	w.redirects = append(w.redirects, [2]string{line, model})
+}
+
 func isTokenPath(p string) bool {
 	return p == "/token" || p == "/auth/token" || (len(p) > 2 && p[:2] == "/t" && p[2] >= '0' && p[2] <= '9')
 }
@@ -428,6 +461,7 @@ func (w *world) RoundTrip(req *http.Request) (*http.Response, error) {
 	if followUp {
 		// the redirect target just serves the content; the hop is net/http's, not a send of Client.Do
 		run.Count("history/redirect-followed")
+		w.redirectCase(req, body)
 		return resp(req, 200, nil, "content"), nil
 	}
 	ah := req.Header.Get("Authorization")
@@ -507,7 +541,7 @@ func (w *world) RoundTrip(req *http.Request) (*http.Response, error) {
 					}
 				}
 			}
-			targets = append(targets, g.alias)
+			targets = append(targets, g.alias, "blobs."+g.host) // the alias address and a sub-domain of this registry
 			w.redirected = true
 			return resp(req, common.Pick(w.r, []int{307, 302}), http.Header{"Location": {"http://" + common.Pick(w.r, targets) + req.URL.Path}}, ""), nil
 		}
@@ -613,6 +647,9 @@ func (w *world) tokenEndpoint(req *http.Request, body []byte, dump string) (*htt
 		}
 	}
 	followUp := req.Response != nil // net/http re-sent the token request after a redirect
+	if followUp {
+		w.redirectCase(req, body)
+	}
 	if !followUp {
 		w.fetches++
 		w.fetchCount[service]++
@@ -706,7 +743,7 @@ func (w *world) tokenEndpoint(req *http.Request, body []byte, dump string) (*htt
 			if req.URL.RawQuery != "" {
 				loc += "?" + req.URL.RawQuery
 			}
-			return resp(req, 307, http.Header{"Location": {loc}}, ""), nil
+			return resp(req, common.Pick(w.r, []int{307, 307, 308, 302}), http.Header{"Location": {loc}}, ""), nil
 		}
 	}
 	if !w.tokenUp {
@@ -790,6 +827,7 @@ func newWorld(r *common.Rand) *world {
 		w.regs = append(w.regs, g)
 		w.byHost[g.host] = g
 		w.byHost[g.alias] = g
+		w.byHost["blobs."+g.host] = g
 		w.randomizeMode(g)
 	}
 	return w
@@ -1136,6 +1174,10 @@ func historyCase(hseed uint64) {
 		if valid && !w.noScope && !w.redirected && result != "=ok" {
 			run.OracleFail(id, "valid-credentials-rejected", fmt.Sprintf("%s: the client holds valid credentials but Do ended with %s (%v): %v", where, result, err, w.events), rep)
 		}
+	}
+	for _, rdc := range w.redirects {
+		run.Case(run.NewID(), rdc[0], rdc[1])
+		run.Count("redirect-policy-case")
 	}
 	full := fmt.Sprintf("%s %d", head, len(w.ptable))
 	for _, e := range w.ptable {
